@@ -195,7 +195,7 @@ def dependency_checks(run, n_programs):
 def check(run):
     cs = pyekf.filter_callees()
     items = [(pyblock.ModelInit("set"), pyblock.model_init_callees()), (pyblock.ModelInit("list"), pyblock.model_init_callees())]
-    items += [(c, {}) for c in (pyblock.Compile(True), pyblock.Compile(False), pyblock.Execute(True), pyblock.Execute(False))]
+    items += [(c, pyblock.compile_callees("formak.python")) for c in (pyblock.Compile(True), pyblock.Compile(False), pyblock.Execute(True), pyblock.Execute(False))]
     items += [(pyekf.ModelModel(False), cs), (pyekf.ModelModel(True), cs)]
     for (c, _), rep in zip(items, run.verify_many(items)):
         triage_generic(run, rep, native_fn, c.key.split(".")[-1])
